@@ -8,7 +8,7 @@ cd "$wt" || exit 2
 export CARGO_NET_OFFLINE=true RUST_BACKTRACE=0
 git diff > /tmp/verify_cur.diff
 if diff -q /tmp/verify_cur.diff MUTANT/patch.diff >/dev/null; then echo "patch_matches_worktree=yes"; else echo "patch_matches_worktree=NO"; fi
-timeout 900 cargo test "$@" --offline >/tmp/verify_demo_with.log 2>&1; rc=$?
+timeout 900 cargo test --offline "$@" >/tmp/verify_demo_with.log 2>&1; rc=$?
 echo "demo_with_change_exit=$rc ($(grep -E '^test result' /tmp/verify_demo_with.log | tail -1))"
 mv "$demo" /tmp/verify_demo_file.rs
 timeout 1800 cargo test --workspace --no-fail-fast --offline >/tmp/verify_base.log 2>&1
@@ -17,6 +17,6 @@ failed=$(grep -E '^test result' /tmp/verify_base.log | sed -E 's/.* ([0-9]+) fai
 echo "baseline_with_change passed=$passed failed=$failed"
 mv /tmp/verify_demo_file.rs "$demo"
 git apply -R MUTANT/patch.diff || { echo "cannot revert"; exit 2; }
-timeout 900 cargo test "$@" --offline >/tmp/verify_demo_without.log 2>&1; rc=$?
+timeout 900 cargo test --offline "$@" >/tmp/verify_demo_without.log 2>&1; rc=$?
 echo "demo_without_change_exit=$rc ($(grep -E '^test result' /tmp/verify_demo_without.log | tail -1))"
 git apply MUTANT/patch.diff
